@@ -98,7 +98,7 @@ def spaces(tier):
     if tier == "quick":
         five = LEAVES[:5]
         five1 = five + size1(five)
-        probe = LEAVES + [e for e in size1(["i", "2"]) if "(" not in e and "**" not in e][:10]
+        probe = LEAVES + [e for e in size1(["i", "2"]) if "(" not in e and "**" not in e][:4]
         return [("s1xs1", five1, five1, False),
                 ("solve", red1 + ["j", "i + j", "i - j", "j - i", "2 * j"], red1, True),
                 ("sign",) + sign_space() + (True,),
